@@ -108,6 +108,9 @@ def c09_jobs(ctx):
             j = {"opt": nm, "cfg": {"max_cycles": r.choice([1, 3]), "fitness_error": None}, "task": t}
             if mode: j["mode"] = mode; j["workers"] = 2
             jobs.append(j)
+        # integer-coded tasks made of ONE multi-variable (the search-space description must not be shared with, and edited by, the run)
+        for vs in ([("binary", 4)], [("discmulti", [3, 4, 2])]) if (not ctx.quick or r.random() < 0.5) else ([r.choice([("binary", 4), ("perm", 5)])],):
+            jobs.append({"opt": nm, "cfg": {"max_cycles": 3, "fitness_error": None}, "task": {"vars": list(vs), "obj": "abs", "minmax": "min", "seed": r.randint(0, 10**6)}})
         # list-valued parameters written the other way round (valid unless a validator says otherwise): in-place sorting / editing shows
         lists = {k: list(reversed(v)) for k, v in search.fixture_scale(nm).items() if isinstance(v, list) and len(v) > 1 and v != list(reversed(v))}
         if lists:
@@ -124,7 +127,9 @@ def c09_decide(ctx, obs):
             diff = {k: (v, o["config_after"].get(k)) for k, v in o["config_before"].items() if o["config_after"].get(k) != v}
             ctx.violation(f"config-modified:{j['opt']}", f"{j['opt']}: optimize() changed the caller's configuration: {diff}", {"kind": "job", "job": j})
         if "task_before" in o and "task_after" in o and json.dumps(o["task_before"], sort_keys=True, default=str) != json.dumps(o["task_after"], sort_keys=True, default=str):
-            ctx.violation(f"task-modified:{j['opt']}", f"{j['opt']}: optimize() changed the caller's task", {"kind": "job", "job": j})
+            what = [k for k in o["task_before"] if o["task_before"][k] != o["task_after"].get(k)]
+            ctx.violation(f"task-modified:{j['opt']}", f"{j['opt']}: optimize() changed the caller's task ({', '.join(what)}: {str(o['task_before'].get(what[0]))[:120]} -> "
+                          f"{str(o['task_after'].get(what[0]))[:120]})" if what else f"{j['opt']}: optimize() changed the caller's task", {"kind": "job", "job": j})
     return n
 
 
